@@ -113,11 +113,60 @@ theorem C16_overwrite_on_pinned : ∃ acts, (run Skeleton.pinned init acts).map
     .setErrEnter 11 8, .setErrClose 11, .setErrStore 11, .linkWake, .linkReturn], by decide⟩
 
 /-- `C16_blocks_while_healthy` needs every `setErr` of M2 to stem from a failure OF THE LINK.  The stub
-    turns any error of `Receive` into `setErr`; `Receive` fails only when the table is closed (checked
-    against the regenerated skeleton) — i.e. only when `setErr` has run already.  Were it to refuse, say,
-    a context that is already done, one call made with an expired context would end a healthy link and
-    `Link` would return that call's context error. -/
-theorem C16_only_link_failures_end_the_link : Skeleton.current.bcReceiveErrorsOnlyClosed = true := by decide
+    turns any error of `Receive` into `setErr`; `Receive` fails only when the table is closed (source fact
+    `bcReceiveErrorsOnlyClosed`, checked against the regenerated skeleton) — i.e. only when `setErr` has run
+    already.  Hence the error of a call's OWN context never ends the link: no stub ever panics with it, no
+    `setErr` is ever entered with it, it is never stored — not first, not later — and `Link` never returns
+    it.  (Were `Receive` to refuse a context that is already done, one call made with an expired context
+    would end a healthy link and `Link` would return that call's context error:
+    `C16_link_would_return_a_call_context_error`.) -/
+theorem C16_only_link_failures_end_the_link : ∀ s, Reach Skeleton.current s →
+    (∀ c, (s.calls c).pc ≠ .panicking eCallCtx ∧ (s.calls c).outcome ≠ .failed eCallCtx) ∧
+    (∀ t, s.setters t ≠ .entered eCallCtx ∧ s.setters t ≠ .stored eCallCtx ∧ s.setters t ≠ .closedFirst eCallCtx) ∧
+    eCallCtx ∉ s.fatalLog ∧ s.slot ≠ some eCallCtx ∧ s.link ≠ .returned (some eCallCtx) := by
+  intro s h
+  have hx := reach_cx _ cur_only_closed h
+  exact ⟨fun c => ⟨hx.pan c, hx.out c⟩, fun t => ⟨hx.ent t, hx.sto t, hx.clf t⟩, hx.log, hx.slot, hx.ret⟩
+
+/-- steps by which the environment makes the link fail (a loop / handler / the remote-definition walk
+    reporting an error, the link context ending and its watcher, a failing write or marshal, a response
+    frame): none of them occurs in the witness run below -/
+def isLinkFailure : Act → Bool
+  | .setErrEnter .. | .watcher .. | .cancelLink | .callWriteFail .. | .callMarshalFail .. | .callLinkCtx ..
+  | .respFrame .. => true
+  | _ => false
+
+/-- What the fact protects against, as a behaviour of the model: on the current tree with that ONE fact
+    flipped (`Receive` refuses a context that is done already), `Link` is parked on a healthy link with a
+    call in flight; a second call is made with an expired context.  Its refused `Receive` becomes a panic,
+    the recovering stub calls `setErr` with the CALL's context error, and `Link` wakes up and returns it —
+    although no step of the run is a failure of the link (no loop, handler or watcher entered `setErr`, the
+    link context is alive, nothing failed to be written): the only `setErr` of the run is the one of call
+    1's recover. -/
+theorem C16_link_would_return_a_call_context_error : ∃ acts, acts.all (fun a => !isLinkFailure a) = true ∧
+    (run skRefusesDoneCtx init acts).map
+      (fun s => decide (s.link = .returned (some eCallCtx) ∧ s.fatalLog = [eCallCtx] ∧ s.bc.closed = true ∧
+                        s.setters 1 = .done ∧ s.linkCtxDone = false ∧ s.watcherFired = false ∧
+                        (s.calls 0).pc = .written)) = some true :=
+  ⟨[.linkCheck,
+    .callStart 0 5 2 0, .callReceive 0, .callSpawn 0, .callWrite 0, .waiterRecvCall 0,
+    .ctxCancel 6,
+    .callStart 1 6 2 0, .callReceive 1, .callRecover 1 eCallCtx, .setErrStore 1, .setErrClose 1,
+    .linkWake, .linkReturn], by decide, by decide⟩
+
+/-- The positive counterpart on the current tree: the same run up to call 1's `Receive` registers call 1,
+    which returns its context error the regular way; `Link` stays parked, nothing is stored, the table stays
+    open and call 0 stays in flight. -/
+theorem C16_done_context_call_leaves_link_healthy :
+    (run Skeleton.current init
+      [.linkCheck,
+       .callStart 0 5 2 0, .callReceive 0, .callSpawn 0, .callWrite 0, .waiterRecvCall 0,
+       .ctxCancel 6,
+       .callStart 1 6 2 0, .callReceive 1, .callSpawn 1, .callWrite 1, .waiterRecvCall 1,
+       .waiterGetsCtx 1, .waiterSend 1, .waiterFree 1, .callTakeRes 1 false, .callReturnOk 1]).map
+      (fun s => decide (s.link = .waiting ∧ s.fatalLog = [] ∧ s.slot = none ∧ s.bc.closed = false ∧
+                        (s.calls 1).pc = .returned ∧ (s.calls 1).outcome = .ok ⟨none, .ctxErr⟩ ∧
+                        (s.calls 0).pc = .written ∧ s.waiters 0 = .recv)) = some true := by decide
 
 /-- `C16_prompt` counts M2's `setErrEnter / setErrStore / setErrClose` as steps that are always enabled for
     the thread inside `setErr`.  In the source that needs `setErr` to wait for nobody: the only lock it takes
@@ -129,10 +178,17 @@ theorem C16_setErr_waits_for_nobody :
     Skeleton.current.seOnlyOwnLock = true ∧ Skeleton.current.seStoreUnderLock = true ∧
     Skeleton.current.reqLoopBlocksOnlyOnRead = true ∧ Skeleton.current.respLoopBlocksOnlyOnRead = true := by decide
 
+/-- M2's `linkReturn` returns the fatal slot.  In the source the variable `Link` returns is assigned from
+    the slot only (checked against the regenerated skeleton) — not, say, overridden by the link context's
+    error when the application cancels the context BECAUSE the link failed. -/
+theorem C16_link_returns_the_slot : Skeleton.current.linkReturnsOnlyFatalSlot = true ∧ Skeleton.current.linkWaitsOnCond = true := by decide
+
 end Panrpc.Ep
 
 #print axioms Panrpc.Ep.C16_setErr_waits_for_nobody
 #print axioms Panrpc.Ep.C16_only_link_failures_end_the_link
+#print axioms Panrpc.Ep.C16_link_would_return_a_call_context_error
+#print axioms Panrpc.Ep.C16_done_context_call_leaves_link_healthy
 
 #print axioms Panrpc.Ep.C16_blocks_while_healthy
 #print axioms Panrpc.Ep.C16_returns_first
@@ -144,3 +200,4 @@ end Panrpc.Ep
 #print axioms Panrpc.Ep.C16_never_parked_after_error
 #print axioms Panrpc.Ep.C16_wrong_error_on_pinned
 #print axioms Panrpc.Ep.C16_overwrite_on_pinned
+#print axioms Panrpc.Ep.C16_link_returns_the_slot
